@@ -29,8 +29,22 @@ extern unsigned long br_verif_seeder_calls;
 extern unsigned long long br_verif_t0_steps;
 void br_verif_fail(const char *what, const char *vm, long a, long b);
 
+/*
+ * H5: instruction coverage of the T0 interpreters. When the environment
+ * variable BR_VERIF_T0COV names a directory, every executed code-block
+ * offset of every interpreter is recorded and written to
+ * <directory>/<vm>.<pid> when the process exits (one byte per offset).
+ * The macro below is expanded where 'ip' and 't0_codeblock' are in scope.
+ */
+extern int br_verif_t0cov_on;
+void br_verif_t0cov(const char *vm, size_t off, size_t len);
+
 #define BR_VERIF_T0_CHECK(vm, dps, rps, dp, rp)   do { \
 		br_verif_t0_steps ++; \
+		if (br_verif_t0cov_on) { \
+			br_verif_t0cov((vm), (size_t)((ip) - t0_codeblock), \
+				sizeof t0_codeblock); \
+		} \
 		if ((dp) < (dps) || (dp) > (dps) + (sizeof (dps) / sizeof (dps)[0]) \
 			|| (rp) < (rps) || (rp) > (rps) + (sizeof (rps) / sizeof (rps)[0])) \
 		{ \
